@@ -94,6 +94,42 @@ def h_stats_faults(ctx, case):
     return 'returned'
 
 
+def h_run_mapping_faults(ctx, case):
+    """the whole mapping run (real files): an abnormal worker => the
+    run raises, no result records, no CSV, no success message, the log is
+    still written; otherwise the run succeeds with all outputs"""
+    from harness import stage as ST
+    from harness import stagechecks as SC
+    inp = SC.inputs(case)
+    work = ST.new_work()
+    nproc = 1 + ctx.choice('n_processors-1', 3)
+    cfg = ST.make_config(inp, work, n_processors=nproc, chunk_size=2,
+                         bootstrap_iteration=3)
+    res = ST.run(cfg, K=case.get('K', 1), faults=True,
+                 fault_steps=case.get('fault_steps', 2))
+    abnormal = [m for m in res['outcome'].values() if m != 'ok']
+    ctx.note('outcome', dict(res['outcome']))
+    if abnormal:
+        ctx.reach('worker failed')
+        SC.check_failed_run(ctx, cfg, res)
+    else:
+        ctx.reach('all workers ok')
+        ctx.check(res['raised'] is None, 'no worker failed => the run '
+                  'succeeds: ' + str(res['raised'])[:80])
+        if res['raised'] is None:
+            SC.check_outputs_agree(ctx, cfg, res, inp.tree)
+            ctx.check(any('RAN SUCCESSFULLY' in ln
+                          for ln in res['json']['log']),
+                      'success message recorded')
+    ST.drop_work(work)
+    return 'failed' if abnormal else 'ok'
+
+
+def _sc_setup(case, mode):
+    from harness import stagechecks as SC
+    SC.setup(case, mode)
+
+
 def _rs_setup(case, mode):
     from harness import refstats as RS
     RS.setup(case, mode)
@@ -133,6 +169,20 @@ HARNESSES = [
             outside='a worker that exits 0 without doing its work; '
                     'deadlock of a real Manager lock; OS-level kill timing',
             expect_reach=['raised', 'returned'], selftest=6, split=48),
+    Harness('run_mapping_worker_faults', h_run_mapping_faults,
+            setup=_sc_setup, cases=[{}], thorough_cases=[{'K': 2}],
+            funcs=['from_specified_markers.run_mapping', '_run_mapping',
+                   'election_runner.run_type_assignment_on_h5ad',
+                   'election.run_type_assignment_on_h5ad_cpu',
+                   '_run_type_assignment_on_h5ad_worker',
+                   'output_utils.blob_to_hdf5', 'blob_to_csv',
+                   'cli_log.CommandLog.write_log'],
+            stubs=['multiprocessing -> scheduler + fault model (real '
+                   'worker bodies run inline on real files)'],
+            bounds='5 query cells in 3 chunks, 1-3 workers, one abnormal '
+                   'worker (any worker, modes before/killed/after/raise), '
+                   'every completion order within K',
+            expect_reach=['worker failed', 'all workers ok'], split=16),
     Harness('statistics_worker_faults', h_stats_faults, setup=_rs_setup,
             cases=[{'cells': 2, 'genes': 1, 'clusters': 1, 'via_tree': True,
                     'max_proc': 3},
